@@ -45,6 +45,8 @@ func (srv *Srv) NewConn(c net.Conn) {
 
 func (conn *Conn) close() {
 	conn.done <- true
+	/* requests that finish from now on must not wait for the writer */
+	close(conn.done)
 	conn.Srv.Lock()
 	delete(conn.Srv.conns, conn)
 	conn.Srv.Unlock()
